@@ -333,6 +333,12 @@ func (st *pvState) walk(v ssa.Value, fr *frame) {
 		for _, ref := range *x.Referrers() {
 			var dsts []ssa.Value
 			switch y := ref.(type) {
+			case *ssa.IndexAddr:
+				for _, rr := range *y.Referrers() {
+					if s2, ok := rr.(*ssa.Store); ok && s2.Addr == ssa.Value(y) {
+						st.walk(s2.Val, fr)
+					}
+				}
 			case *ssa.Slice:
 				dsts = append(dsts, y)
 			case *ssa.ChangeType:
@@ -610,6 +616,18 @@ func (st *pvState) allocContents(a *ssa.Alloc, path []string, fr *frame) bool {
 					saveFound := found
 					visitRefs(nested, next, inFr)
 					found = found || saveFound
+				}
+			case *ssa.Slice:
+				// fixed array filled by copy(arr[:], src)
+				if len(path) == 0 && len(cur) == 0 {
+					for _, rr := range *x.Referrers() {
+						if c, ok := rr.(*ssa.Call); ok {
+							if b, ok := c.Call.Value.(*ssa.Builtin); ok && b.Name() == "copy" && len(c.Call.Args) == 2 && c.Call.Args[0] == ssa.Value(x) {
+								found = true
+								st.walk(c.Call.Args[1], inFr)
+							}
+						}
+					}
 				}
 			case *ssa.IndexAddr:
 				// array literal elements (varargs, []T{...})
